@@ -37,6 +37,7 @@ CONSTANTS
  MaxLen = %d
 INVARIANT TypeOK
 INVARIANT Resync
+INVARIANT ResyncThenStray
 INVARIANT FoldAgrees
 INVARIANT EmitState
 CHECK_DEADLOCK FALSE
@@ -44,23 +45,32 @@ CHECK_DEADLOCK FALSE
 
 
 def check_resync(prefix, out, type_, v):
-    """parse(prefix + Encode(M)) must be parse(prefix) + [M]."""
+    """parse(prefix + Encode(M)) must be parse(prefix) + [M] - however the bytes
+    are handed to the parser (one call, byte-wise, bytes object, one call per
+    part), and stray data / EOX bytes afterwards must add nothing."""
     import mido
     M = mido.Message(type_, **attrs_of(type_, v))
-    data = list(prefix) + M.bytes()
-    for how in ('feed', 'feed_byte'):
+    enc = M.bytes()
+    data = list(prefix) + enc
+    rt = len(enc) == 1 and enc[0] >= 0xf8
+    stray = [] if rt else [0x00, 0x7f, 0xf7]
+    ways = [('feed', [data]), ('feed_byte', None), ('feed/bytes', [bytes(data)]),
+            ('feed/parts', [list(prefix), enc, stray]),
+            ('feed/parts/bytes', [bytes(prefix), bytearray(enc), bytes(stray)])]
+    for how, parts in ways:
         try:
             p = mido.Parser()
-            if how == 'feed':
-                p.feed(data)
-            else:
+            if parts is None:
                 for b in data:
                     p.feed_byte(b)
+            else:
+                for part in parts:
+                    p.feed(part)
             got = list(p)
         except Exception as e:
             return 'raises/' + type(e).__name__, '%s raised %r' % (how, e)
         gb = [list(m.bytes()) for m in got]
-        if gb[:-1] != out or not got:
+        if not got or gb[:-1] != out:
             return 'prefix-output', '%s: messages before M are %r expected %r' % (how, gb[:-1], out)
         if not (got[-1] == M):
             return 'message-lost', '%s: last message %r expected %r' % (how, got[-1], M)
